@@ -1,6 +1,8 @@
 import Driver.Proto
 import SpsdkVerif.Model.BinImage
 import SpsdkVerif.Model.HexFmt
+import SpsdkVerif.Model.HexFmtOw
+import SpsdkVerif.Model.BinImageOps
 open SpsdkVerif Driver
 open SpsdkVerif.BinImg SpsdkVerif.Misc
 
@@ -68,6 +70,15 @@ def hexDec (f : HexFmt.Bytes → Except HexFmt.HErr HexFmt.Image) (t : String) :
       let e := match img.exec with | some e => toString e | none => "N"
       "ok:" ++ " ".intercalate (e :: img.segs.map (fun s => s!"{s.addr}:{if s.data.isEmpty then "-" else toHex s.data}"))
 
+def segsLine (l : List HexFmt.Seg) : String :=
+  "ok:" ++ " ".intercalate (l.map (fun s => s!"{s.addr}:{if s.data.isEmpty then "-" else toHex s.data}"))
+
+/-- HEX / S19 text of a whole tree through the overwrite path (Model/HexFmtOw.lean) -/
+def saveText (f : Option Nat → Img → Except HexFmt.HErr HexFmt.Bytes) (e : String) (toks : List String) : String :=
+  match parseExec e, parseImg 64 toks with
+  | some e, some (i, []) => (match f e i with | .ok t => "ok:" ++ toHex t | .error x => herr x)
+  | _, _ => "bad-op"
+
 def step : List String → String
   | "len" :: toks => match parseImg 64 toks with | some (i, []) => s!"ok:{i.len}" | _ => "bad-op"
   | "export" :: toks => match parseImg 64 toks with | some (i, []) => resLine toHex i.export | _ => "bad-op"
@@ -84,6 +95,33 @@ def step : List String → String
   | ["ihex_dec", t] => hexDec HexFmt.ihexDecode t
   | ["srec_dec", t] => hexDec HexFmt.srecDecode t
   | ["load_text", t] => hexDec HexFmt.loadText t
+  -- overwrite path: <addr>:<hex> … (add_binary(.., overwrite=True) in this order)  ->  ok:<addr>:<hex> … (the BinFile's segments)
+  | "ow_segs" :: toks =>
+    (match toks.mapM parseSeg with
+     | some ws => (match HexFmt.addAllOw ⟨[], 0⟩ ws with | .ok st => segsLine st.list | .error x => herr x)
+     | none => "bad-op")
+  -- whole trees: <tree>  ->  the BinFile's segments ;  <exec|N> <tree>  ->  ok:<hex of the text>
+  | "save_segs" :: toks =>
+    (match parseImg 64 toks with
+     | some (i, []) => (match i.saveSegs with | .ok l => segsLine l | .error x => herr x)
+     | _ => "bad-op")
+  -- remaining tree operations (Model/BinImageOps.lean)
+  | "join" :: toks =>     -- join_images(): ok:<len> <number of sub-images> <hex of export()>
+    (match parseImg 64 toks with
+     | some (i, []) => resLine (fun (j : Img) => s!"{j.len} {j.children.length} " ++ (match j.export with | .ok b => toHex b | .error e => e.tag)) i.joinImages
+     | _ => "bad-op")
+  | "getaddr" :: a :: toks =>   -- get_image_by_absolute_address(a): ok:<path of child indices|-> <absolute address of the image found> <its length>
+    (match parseNat a, parseImg 64 toks with
+     | some a, some (i, []) =>
+       resLine (fun (r : List Nat × Nat × Img) =>
+         (if r.1.isEmpty then "-" else ",".intercalate (r.1.map toString)) ++ s!" {i.offset + r.2.1} {r.2.2.len}") (i.getByAddr a)
+     | _, _ => "bad-op")
+  | "updoff" :: toks =>   -- update_offsets(): ok:<own offset> <child offsets> <len>
+    (match parseImg 64 toks with
+     | some (i, []) => resLine (fun (j : Img) => s!"{j.offset} " ++ ",".intercalate (j.children.map (fun c => toString c.offset)) ++ s!" {j.len}") i.updateOffsets
+     | _ => "bad-op")
+  | "save_ihex" :: e :: toks => saveText Img.saveIhex e toks
+  | "save_srec" :: e :: toks => saveText Img.saveSrec e toks
   | _ => "bad-op"
 
 def main : IO Unit := Driver.loop step
